@@ -65,8 +65,9 @@ def header_layout(path, alg, placement, extras):
         prot = {"alg": alg}
         if extras:
             prot.update(extras)
-    elif placement == "unprotected-alg":
-        prot = None
+    elif placement in ("unprotected-alg", "empty-protected"):
+        # "empty-protected": the caller passes a literal empty dict as protected header
+        prot = None if placement == "unprotected-alg" else {}
         hdr = {"alg": alg}
         if extras:
             hdr.update(extras)
@@ -74,7 +75,7 @@ def header_layout(path, alg, placement, extras):
         prot = {"alg": alg}
         hdr = dict(extras) if extras else {"typ": "split"}
     if b64false:
-        if prot is None:
+        if not prot:
             prot = {}
         prot["b64"] = False
         prot["crit"] = ["b64"]
@@ -192,7 +193,7 @@ def h_roundtrip(ctx):
     how = ctx.choose("key_repr", ["dict", "bytes"] if kty_oct else ["dict", "native", "pem", "der"])
     form = ctx.choose("key_form", ["key", "set1", "set3", "callable-key", "callable-set"])
     verify_with = ctx.choose("verify_with", ["public"] if kty_oct else ["public", "private"])
-    placement = ctx.choose("placement", ["protected"] if path in ("compact", "7797-compact") else ["protected", "unprotected-alg", "split"])
+    placement = ctx.choose("placement", ["protected"] if path in ("compact", "7797-compact") else ["protected", "unprotected-alg", "split", "empty-protected"])
     extras = ctx.choose("extras", [None, {"typ": "JOSE", "cty": 'a"b\\c/é\u0001'}])
     pls = payloads()
     if path == "7797-flattened":
